@@ -72,6 +72,8 @@ inductive WFail | none | temp | perm
 deriving Repr, DecidableEq
 
 structure Conn where
+  /-- the source's `Read` starts with the `activeCall` close-bit test (the repair of F38) -/
+  rcc : Bool := Facts.tlcp.apiReadChecksClosed
   hsDone : Bool := false
   hsErr : Option ApiErr := none
   hsScript : HsScript := .succeed
@@ -146,13 +148,26 @@ def splitQueue : List InItem → List (Wire Bytes) × Option InItem × List InIt
 def requeue (ws : List (Wire Bytes)) (e : Option InItem) (rest : List InItem) : List InItem :=
   ws.map InItem.record ++ (match e with | some it => [it] | none => []) ++ rest
 
+/-- how the transport looks to one `Read`: closed after the leading records only at a real end -/
+def tailOf : Option InItem → Tail
+  | some (.eof part) => { part := part, closed := true }
+  | _ => { part := none, closed := false }
+
 /-- the effective latch of the read half -/
 def inErr (c : Conn) : Option ApiErr :=
   match c.inErrX with
   | some e => some e
   | none => c.rx.err.map ofRx
 
+/-- `sendAlert` latches `out.err`: when the record layer sent an alert during this call, later
+writes fail with that local error -/
+def outErrAfter (old new : RxState) (outErr : Option ApiErr) : Option ApiErr :=
+  match (new.alerts.drop old.alerts.length).getLast? with
+  | some a => some (.localAlert a)
+  | none => outErr
+
 def read (c : Conn) (n : Nat) : Conn × Res :=
+  if c.rcc && c.closedBit then (c, .err .closed) else
   match handshake c false with
   | (c, some e) => (c, .err e)
   | (c, none) =>
@@ -167,11 +182,8 @@ def read (c : Conn) (n : Nat) : Conn × Res :=
       ({ c with inErrX := some .closed }, .err .closed)
     else
     let (ws, it, rest) := splitQueue c.queue
-    let tail : Tail := match it with
-      | some (.eof part) => { part := part, closed := true }
-      | _ => { part := none, closed := false }
-    let ((rx', ws'), r) := readCall P plainDec Ctx.established tail c.rx ws n false
-    let c' := { c with rx := rx', queue := requeue ws' it rest }
+    let ((rx', ws'), r) := readCall P plainDec Ctx.established (tailOf it) c.rx ws n false
+    let c' := { c with rx := rx', queue := requeue ws' it rest, outErr := outErrAfter c.rx rx' c.outErr }
     match r with
     | .ok d => (c', .ok d)
     | .okErr d e => (c', .okErr d (ofRx e))
@@ -207,14 +219,14 @@ def write (c : Conn) (data : Bytes) : Conn × Res :=
       | some e => ({ c with outErr := some e }, .err e)
       | none => ({ c with outLog := c.outLog ++ [(P.tApp, data.take 4)] }, .ok [])
 
+/-- the part of `Close` between setting the close bit and closing the transport -/
+def closeSend (c : Conn) : Conn × Option ApiErr := if c.hsDone then closeNotify c else (c, none)
+
 def close (c : Conn) : Conn × Res :=
   if c.closedBit then (c, .err .closed) else
-  let c := { c with closedBit := true }
-  let (c, alertErr) := if c.hsDone then closeNotify c else (c, none)
-  let c := { c with localClosed := true }
-  match alertErr with
-  | some e => (c, .err e)      -- "failed to send closeNotify alert (but connection was closed anyway): %w"
-  | none => (c, .ok [])
+  let r := closeSend { c with closedBit := true }
+  -- "failed to send closeNotify alert (but connection was closed anyway): %w"
+  ({ r.1 with localClosed := true }, match r.2 with | some e => .err e | none => .ok [])
 
 def closeWrite (c : Conn) : Conn × Res :=
   if !c.hsDone then (c, .err .earlyCloseWrite) else
@@ -231,7 +243,11 @@ def step (c : Conn) : Call → Conn × Res
     match handshake c cb with
     | (c, some e) => (c, .err e)
     | (c, none) => (c, .ok [])
-  | .arrive it => ({ c with queue := c.queue ++ [it] }, .event)
+  | .arrive it =>
+    -- a pending timeout is reported only when nothing is readable: what arrives meanwhile comes first
+    match it, c.queue.getLast? with
+    | .record _, some .tempErr => ({ c with queue := c.queue.dropLast ++ [it, .tempErr] }, .event)
+    | _, _ => ({ c with queue := c.queue ++ [it] }, .event)
   | .setWFail w => ({ c with wfail := w }, .event)
 
 def run (c : Conn) : List Call → List Res
